@@ -38,9 +38,11 @@ type Program struct {
 	soleImpl map[*types.TypeName]*types.Named // unexported interface -> its only implementer (nil: none or several)
 	seamField  map[string]*seam // see seams.go
 	seamGlobal map[string]*seam
+	afterFuncLike map[*ssa.Function]int // wrappers of time.AfterFunc -> index of the callback parameter
 }
 
 func loadProgram(repo string, goarch string) (*Program, error) {
+	theProgram = nil
 	env := append(os.Environ(), "GOFLAGS=-mod=mod", "GOPROXY=off", "GOSUMDB=off", "GOTOOLCHAIN=local", "GOWORK=off")
 	if goarch != "" {
 		env = append(env, "GOARCH="+goarch)
@@ -91,6 +93,7 @@ func loadProgram(repo string, goarch string) (*Program, error) {
 	resolveByFingerprint(p)
 	resolveFieldsByFingerprint(p)
 	resolveThinWrappers(p)
+	theProgram = p
 	return p, nil
 }
 
@@ -417,9 +420,33 @@ func calleeOf(c *ssa.CallCommon) *ssa.Function {
 		if f, ok := v.Fn.(*ssa.Function); ok {
 			return origin(f)
 		}
+	case *ssa.UnOp:
+		// a call through a collaborator seam (seams.go): the function the field / variable is bound to
+		if theProgram == nil || v.Op != token.MUL {
+			return nil
+		}
+		if theProgram.seamField == nil {
+			theProgram.buildSeams()
+		}
+		switch a := v.X.(type) {
+		case *ssa.FieldAddr:
+			k, _ := fieldKey(a.X.Type(), a.Field)
+			if s := theProgram.seamField[k]; s != nil && !s.bad && s.fn != nil {
+				return s.fn
+			}
+		case *ssa.Global:
+			if a.Pkg != nil {
+				if s := theProgram.seamGlobal[a.Pkg.Pkg.Name()+"."+a.Name()]; s != nil && !s.bad && s.fn != nil {
+					return s.fn
+				}
+			}
+		}
 	}
 	return nil
 }
+
+// theProgram: the program being analysed (one per process), for the helpers that have no other way to reach it.
+var theProgram *Program
 
 // qualName gives "pkgpath.Name" or "(pkgpath.Type).Method" for any function (also outside the repo).
 func qualName(fn *ssa.Function) string {
